@@ -536,4 +536,56 @@ def r5_shared_tables_are_read_only(a, tier):
     return rep
 
 
-RULES = [r1_builtins, r2_who_may_eval, r3_gate, r4_inert, r5_shared_tables_are_read_only]
+def r6_context_precedence(a, tier):
+    from ..minieval import Raised, Unsupported
+    from ..modelinterp import Bound, Hook, ModelInterp, Recorder, Stub
+    rep = RuleReport(
+        'C17.R6',
+        'what a constant sees: constant(), interpreted with the gate and the evaluator replaced by stand-ins that look names up in the '
+        'context they are handed, evaluates a name that is BOTH an element of the current AST and a safe builtin (or a helper of the '
+        'semantics) to the AST value - the names bound in the current AST come last in the context; a name that is only a builtin / only '
+        'a helper is still visible; the value is appended to the state once',
+        floor=3,
+    )
+    fn = a.ct.lookup('tatsu.contexts.engine.ParserEngine', 'constant')
+
+    class AstD(dict):
+        pass
+    BUILTIN, HELPER = ('BUILTIN',), ('HELPER',)
+
+    def lit_eval(sx):
+        import ast as _a
+        try:
+            return _a.literal_eval(sx)
+        except (ValueError, SyntaxError) as e:
+            raise Raised(type(e).__name__, _a.Pass()) from None
+
+    def safe_eval(expr, ctx):
+        if expr[:2] in ("f'", 'f"'):
+            return lit_eval(expr[1:])
+        return ctx[expr]
+    for name, ast_has, want in (('len', True, 7), ('helper', True, 7), ('len', False, BUILTIN), ('helper', False, HELPER)):
+        state = Recorder('state')
+        sem = Hook(None, safe_context=Hook(lambda: {'helper': HELPER}))
+        me = Stub('tatsu.contexts.engine.ParserEngine', state=state, tracer=Recorder('tracer'), next_token=Hook(lambda *x: None), semantics=sem,
+                  ast=AstD({name: 7} if ast_has else {'other': 1}), newexcept=Hook(lambda *x, **k: None))
+        it = ModelInterp(a, {'AST': AstD, 'safe_builtins': Hook(lambda: {'len': BUILTIN}), 'is_eval_safe': Hook(lambda e, c: True), 'safe_eval': Hook(safe_eval),
+                             'stdlib_ast': Hook(None, literal_eval=Hook(lit_eval)), 'trim': Hook(lambda x: x.strip()), 'Undefined': object(),
+                             'getattr': Hook(lambda o, n, *d: (o.attrs[n] if isinstance(o, Hook) and n in o.attrs else (d[0] if d else None)))})
+        try:
+            got = it.call_bound(Bound(me, fn), [name], {})
+            raised = None
+        except Raised as r:
+            got, raised = None, r.cls_name
+        except Unsupported as e:
+            raise AnalysisError(f'C17.R6: cannot interpret constant(): {e}') from e
+        appended = [t[1][0] for t in state.trace if t[0] == 'append' and t[1]]
+        ok = raised is None and got == want and appended == [want]
+        rep.add({'constant': f'`{name}`', 'name_is_an_AST_element': ast_has, 'value': repr(got), 'want': repr(want), 'appended': [repr(x) for x in appended], 'ok': ok})
+        if not ok:
+            rep.fail(fn.qualname, f'context-precedence:{name}:{ast_has}', f'the constant `{name}` in a rule whose AST {"binds" if ast_has else "does not bind"} {name} evaluates to {got!r} '
+                     f'(raised {raised}); required {want!r}: a constant reads the names bound in the current AST, which shadow builtins and helpers of the same spelling', fn.loc)
+    return rep
+
+
+RULES = [r1_builtins, r2_who_may_eval, r3_gate, r4_inert, r5_shared_tables_are_read_only, r6_context_precedence]
